@@ -337,6 +337,37 @@ def h_concrete_full_beam_large(ctx):
         im, ym = teneva.optima_tt_max(Y, k)
         ok = ok and abs(abs(ym) - np.abs(F).max()) <= 1e-8
     ctx.claim('full_beam_optima_are_true_beyond_default_candidate_count', bool(ok))
+    # cores of integer dtype and of float32 (tables of counts, tensors loaded from single-precision files),
+    # nothing pruned: the optima are the true ones; the beam also without the preparatory sweep
+    okd = True
+    rng = np.random.default_rng(8)
+    for shape, r in (((3, 3, 3), 2), ((2, 4, 3), 2), ((4, 5), 3)):
+        rk = [1] + [r] * (len(shape) - 1) + [1]
+        for dtype in (np.int64, np.int32, np.float32):
+            Yi = [rng.integers(-3, 4, size=(rk[k], shape[k], rk[k + 1])).astype(dtype) for k in range(len(shape))]
+            Yi[0][0, 0, 0] = 3
+            F = teneva.full([G.astype(float) for G in Yi])
+            if np.abs(F).max() == 0:
+                continue
+            N = F.size
+            for l2r in (True, False):
+                for kw in ({}, {'to_orth': False}):
+                    i = teneva.optima_tt_beam(Yi, N, l2r=l2r, **kw)
+                    okd = okd and abs(abs(F[tuple(int(a) for a in i)]) - np.abs(F).max()) <= 1e-6
+            i1, y1, i2, y2 = teneva.optima_tt(Yi, N)
+            okd = okd and abs(y1 - F.min()) <= 1e-5 and abs(y2 - F.max()) <= 1e-5
+            okd = okd and all(G.dtype == dtype for G in Yi)
+    # (small integer tables on which a partial product cut to an integer changes the winner)
+    for cores in ([[[[2, 1], [1, -1]]], [[[3], [-2]], [[-1], [-2]]]], [[[[0, -2], [1, 3]]], [[[1], [-3]], [[1], [0]]]],
+                  [[[[1, -3], [-2, 1]]], [[[-2], [2]], [[2], [3]]]]):
+        for dtype in (np.int64, np.int32):
+            Yi = [np.array(G, dtype=dtype) for G in cores]
+            F = teneva.full([G.astype(float) for G in Yi])
+            for l2r in (True, False):
+                for kw in ({}, {'to_orth': False}, {'to_orth': False, 'p': 0}):
+                    i = teneva.optima_tt_beam(Yi, F.size, l2r=l2r, **kw)
+                    okd = okd and abs(abs(F[tuple(int(a) for a in i)]) - np.abs(F).max()) <= 1e-9
+    ctx.claim('full_beam_optima_true_for_integer_and_single_precision_cores', bool(okd))
 
 
 RANK1_CASES = {
